@@ -513,7 +513,32 @@ func c07ObjOrder(c *Case) {
 }
 
 var c07Chains = c07ChainPrograms()
-var c07Bounds = append(append(c07BoundPrograms(), c07ObjAliasPrograms()...), c07EffectfulConditions()...)
+var c07Bounds = append(append(append(c07BoundPrograms(), c07ObjAliasPrograms()...), c07EffectfulConditions()...), c07NextInSpecialRules()...)
+
+// next outside the pattern rules leaves the rule it is in and nothing else: the following rules of the same kind
+// still run (directly, from inside loops, from a called function; with exit in a later rule as a tripwire)
+func c07NextInSpecialRules() []*Program {
+	var out []*Program
+	fn := &Func{Name: "leave", Params: []string{"v"}, Body: Blk(&ForIn{V: "e", It: Arr(N("1"), N("2")), Body: Blk(&If{C: Bin("==", V("e"), V("v")), Then: Blk(&Next{})})}, &Return{X: S("not left")})}
+	for _, kind := range []string{"BEGIN", "END", "BEGINFILE", "ENDFILE"} {
+		tag := func(t string) Expr { return S(kind + " " + t) }
+		bodies := [][]Stmt{
+			{Pr(tag("first")), &Next{}, Pr(tag("unreachable"))},
+			{Pr(tag("first")), &ForIn{V: "e", It: Arr(N("1"), N("2"), N("3")), Body: Blk(&While{C: &BoolLit{V: true}, Body: Blk(&If{C: Bin("==", V("e"), N("2")), Then: Blk(&Next{})}, &Break{})}, Pr(tag("loop"), V("e")))}, Pr(tag("unreachable"))},
+			{Pr(tag("first")), Pr(CallE(V("leave"), N("2"))), Pr(tag("unreachable"))},
+			{Pr(tag("first")), &If{C: Bin(">", V("seen"), N("0")), Then: Blk(&Next{})}, ES(&IncDec{Op: "++", X: V("seen")}), Pr(tag("first time only"))},
+		}
+		for _, b := range bodies {
+			items := []any{fn, &Rule{Kind: kind, Body: &Block{Stmts: b}}, &Rule{Kind: kind, Body: Blk(Pr(tag("second")))}, &Rule{Kind: kind, Body: Blk(Pr(tag("third")), &Next{})}, &Rule{Kind: kind, Body: Blk(Pr(tag("fourth")))},
+				&Rule{Kind: "pattern", Body: Blk(Pr(S("rule"), V("$")))}}
+			if kind != "END" {
+				items = append(items, &Rule{Kind: "END", Body: Blk(Pr(S("end")))})
+			}
+			out = append(out, &Program{Items: items})
+		}
+	}
+	return out
+}
 
 func c07Cases(tier string) int {
 	n := len(c07Matrix())*3 + 300 + len(c07Headers())*3 + len(c07Longs()) + len(c07Chains) + len(c07Bounds)
@@ -563,7 +588,7 @@ func c07Run(c *Case) {
 		k := i - (len(mat)*3 + 300 + len(c07Headers())*3 + len(c07Longs()) + len(c07Chains))
 		c.NonTrivial(fmt.Sprintf("bound:%d", k))
 		c.Count("loops_with_moving_bound")
-		m2(c, &M2Case{Prog: c07Bounds[k], Desc: "loop whose bound variable changes while it runs"})
+		m2(c, &M2Case{Prog: c07Bounds[k], Files: []InFile{{Name: "in.json", Data: []byte("[1, 2] 3")}}, Desc: "loop whose bound variable changes while it runs / next outside the pattern rules"})
 	default:
 		if start := len(mat)*3 + 300 + len(c07Headers())*3 + len(c07Longs()) + len(c07Chains) + len(c07Bounds); (i-start)%5000 == 17 && (i-start)/5000 < len(c07Longs()) {
 			c07LongRun(c, c07Longs()[(i-start)/5000])
